@@ -490,6 +490,7 @@ func init() {
 			c.HandlerToRules("C08")
 			c.SigningRootProvenance("C08")
 			c.ServicePositions("C08")
+			c.BatchIdentifiers("C08")
 			c.ScatterIndexDiscipline("C08")
 			c.LosslessSplit("C08")
 			c.ScatterPartition("C08")
